@@ -43,29 +43,19 @@ Theorem C04_no_check_sound : forall d s, wf_ity d -> wf_ity s ->
 Proof. exact no_check_sound. Qed.
 Print Assumptions C04_no_check_sound.
 
-(* an implicit conversion at a checked site is exact: value kept or program stopped *)
+(* every implicit conversion site of the code generator is checked (call argument, declaration,
+   assignment, single and multiple return with or without pending defer, array / record /
+   record-array initializer lists, numeric for bounds): only the explicit cast is not *)
+Theorem C04_all_sites_checked : forall st, site_implicit st = true -> site_checked st = true.
+Proof. exact sites_all_checked. Qed.
+Print Assumptions C04_all_sites_checked.
+
+(* hence an implicit conversion, at any site, is exact: value kept or program stopped *)
 Theorem C04_implicit_conversion_exact : forall m st s d x,
-  wf_ity s -> wf_ity d -> in_range s x -> site_checked st = true ->
+  wf_ity s -> wf_ity d -> in_range s x -> site_implicit st = true ->
   convert_at m st s d x = if in_rangeb d x then Oval x else Opanic MSG_NARROW.
-Proof. exact convert_at_correct. Qed.
+Proof. exact convert_at_implicit. Qed.
 Print Assumptions C04_implicit_conversion_exact.
-
-(* full strength "every implicit conversion site is checked" is false on the unchanged tree *)
-Theorem C04_all_sites_checked_refuted : ~ all_implicit_sites_checked.
-Proof. exact sites_refuted. Qed.
-Print Assumptions C04_all_sites_checked_refuted.
-
-(* ... the sites that are not: single-value return without pending defer, initializer lists *)
-Theorem C04_all_sites_checked_partial : forall st, site_implicit st = true ->
-  site_checked st = negb (unchecked_today st).
-Proof. exact sites_partial. Qed.
-Print Assumptions C04_all_sites_checked_partial.
-
-(* at those sites the value is silently wrapped *)
-Theorem C04_unchecked_site_wraps : forall st s d x, wf_ity d -> site_checked st = false ->
-  convert_at Gnu st s d x = Oval (wrap d x).
-Proof. exact convert_at_unchecked. Qed.
-Print Assumptions C04_unchecked_site_wraps.
 
 (* bounds_fires_iff: for every index type, every index value, every length below 2^64 *)
 Theorem C04_bounds_fires_iff : forall m t len i, wf_ity t -> in_range t i -> in_range USIZE len ->
